@@ -27,5 +27,5 @@ pub fn strategy() -> BoxedStrategy<Case> {
 }
 
 pub fn plan(tier: Tier) -> Plan<Case> {
-    Plan { strategy: strategy(), check, shrink_iters: 300, decode_bytes: None, cases: match tier { Tier::Quick => 6_000, Tier::Thorough => 300_000 } }
+    Plan { strategy: strategy(), check, shrink_iters: 300, decode_bytes: None, watchdog_secs: 600, cases: match tier { Tier::Quick => 6_000, Tier::Thorough => 300_000 } }
 }
